@@ -646,6 +646,7 @@ func (in *c13Inst) Apply(evl string, _ *mc.Env) (string, error) {
 	t.res = append(t.res, res[0])
 	in.sys.resultKinds.Store(c13ResClass(res[0]), struct{}{})
 	if c.family == "malformed" || c.family == "notowned" {
+		t.errAt, t.errCls = i, "ACCEPTED" // the log ends here: nothing meaningful follows a command that had to be refused
 		return "", mc.Violatef("C13:refused-family-command-accepted:"+c.kind(), "command %s (%s) must be refused but returned %q", c.label, c.family, c13ResClass(res[0]))
 	}
 	if err := c13CheckApplied(prevApplied, a, idx, res, c.kind(), "one-per-batch "+c.label); err != nil {
@@ -665,7 +666,7 @@ func (in *c13Inst) Check() (verr error) {
 	if n == 0 {
 		return nil
 	}
-	if t.errCls == "PANIC" {
+	if t.errCls == "PANIC" || t.errCls == "ACCEPTED" {
 		return nil // already reported by Apply
 	}
 	// (b) every other batch partition; bit g of mask set = batch boundary after command g
@@ -884,7 +885,7 @@ func (s *c13Sys) runPartition(t *c13Trace, mask int) error {
 // c13Continue applies commands from..end one per batch on node and compares with the trace.
 // floor is the prefix length whose state the node already holds (replayed no-ops must not change it).
 func c13Continue(node *c13Node, t *c13Trace, from, floor int, what, where string) error {
-	kind := t.lastKind()
+	kind := c13Class(t.lastKind())
 	for i := from; i < len(t.cmds); i++ {
 		res, err := node.apply(t.cmds[i:i+1], uint64(i+1))
 		var p *c13Panic
@@ -922,7 +923,7 @@ func (s *c13Sys) runRestart(t *c13Trace, k int) error {
 	s.restartRuns.Add(1)
 	node := c13Acquire()
 	defer node.release()
-	kind := t.lastKind()
+	kind := c13Class(t.lastKind())
 	where := fmt.Sprintf("restart after %d of [%s]", k, strings.Join(t.labels(), " | "))
 	for i := 0; i < k; i++ {
 		if _, err := node.apply(t.cmds[i:i+1], uint64(i+1)); err != nil {
@@ -951,7 +952,7 @@ func (s *c13Sys) runSnapshot(t *c13Trace, k int) error {
 	s.snapshotRuns.Add(1)
 	node := c13Acquire()
 	defer node.release()
-	kind := t.lastKind()
+	kind := c13Class(t.lastKind())
 	where := fmt.Sprintf("snapshot at %d of [%s]", k, strings.Join(t.labels(), " | "))
 	if err := node.sm.Restore(c13Ctx, multiraft.Snapshot{Index: uint64(k), Term: 1, Data: append([]byte(nil), t.smSnaps[k]...)}); err != nil {
 		return mc.Violatef("C13:snapshot-restore-fails:"+kind, "%s: Restore failed: %v", where, err)
